@@ -4,7 +4,9 @@
 (* i <-> declared field i.                                                 *)
 (*                                                                         *)
 (* From on an enum: variant = [n : 0..3 fields, attr : "none" | "from" |   *)
-(*   "skip" | "types" | "forward"].  From on a struct: one such variant.   *)
+(*   "skip" | "types" | "forward" | "empty"].  From on a struct: one such  *)
+(*   variant.  "empty" is `#[from()]`: a type list with no type in it -    *)
+(*   one impl per listed type is none at all, and it is an annotation.     *)
 (* Into on a struct: [n, sattr : SUBSET {"owned","ref","ref_mut"} or       *)
 (*   "none"/"types", skip : SUBSET 1..n, fattr : 0..n (the field carrying  *)
 (*   a field-level #[into], 0 = none)].                                    *)
@@ -15,13 +17,13 @@
 (***************************************************************************)
 EXTENDS Naturals, Sequences, FiniteSets, TLC
 
-Explicit(vs) == \E j \in 1..Len(vs) : vs[j].attr \in {"from", "types", "forward"}
+Explicit(vs) == \E j \in 1..Len(vs) : vs[j].attr \in {"from", "types", "forward", "empty"}
 
 \* the documented impl set of derive(From)
 DocFromImpls(vs, isEnum) ==
     {<<(CASE vs[j].attr = "types" -> "types" [] vs[j].attr = "forward" -> "forward" [] OTHER -> "tuple"), j>> :
         j \in {j \in 1..Len(vs) :
-                 /\ vs[j].attr # "skip"
+                 /\ vs[j].attr \notin {"skip", "empty"}
                  /\ (vs[j].attr = "none" =>
                         /\ ~(isEnum /\ Explicit(vs))              \* none for un-annotated variants once any is annotated
                         /\ ~(isEnum /\ vs[j].n = 0))}}            \* none for unit variants
@@ -35,6 +37,7 @@ ImplFromImpls(vs, isEnum) ==
                    [] vs[j].attr = "from"    -> TRUE
                    [] vs[j].attr = "forward" -> TRUE
                    [] vs[j].attr = "skip"    -> FALSE
+                   [] vs[j].attr = "empty"   -> FALSE                     \* attr::Types with no entries: the loop runs zero times
                    [] vs[j].attr = "none"    -> ~(hasExplicit \/ (isEnum /\ vs[j].n = 0))}}
 
 ImplSet(vs, isEnum) == ImplFromImpls(vs, isEnum) = DocFromImpls(vs, isEnum)
